@@ -393,7 +393,7 @@ func buildCaseAt(rootName string, rootContent []byte, banned []directive.Enumera
 	}
 	var oo []core.Option
 	if len(p.Banned) > 0 {
-		oo = append(oo, core.WithBannedDirectives(p.Banned...))
+		oo = append(oo, banOptions(p.Banned)...)
 	}
 	oo = append(oo, core.WithFixedSeedForRegex())
 	c1 := core.NewJApiCore(fs.NewFile(rootName, rootContent), oo...)
